@@ -2,6 +2,8 @@ package main
 
 import (
 	"fmt"
+	"go/token"
+	"go/types"
 	"sort"
 	"strings"
 
@@ -293,4 +295,364 @@ func ruleOwnGlobalReach(c *Ctx, r *R) {
 		}
 		r.check(!reach[g.Nodes[fn]], "unreachable:"+name, c.Pos(fn.Pos()), fmt.Sprintf("not reachable from the %d methods of the public types", len(roots)), "a writer of package-level state is reachable from the public API: runtimes can modify state they share")
 	}
+}
+
+func init() {
+	register(&Rule{ID: "REC-parser-depth", Props: []string{"C04", "C02"}, Min: 1,
+		Doc: "P: the recursive-descent parser (and the regular-expression pattern translator) recurse once per nesting level of the input; the input is arbitrary bytes, so the nesting is unbounded and the Go stack is the only limit - exhausting it is a fatal error no recover() intercepts. Every recursion cycle of package parser (strongly connected component of its static call structure, bound method values included) must contain a depth guard: a function of the cycle that counts its own nesting in a field (increment on entry) and compares the count with a limit",
+		Run: ruleRecParserDepth})
+}
+
+func ruleRecParserDepth(c *Ctx, r *R) {
+	funcs := c.AllSrcFuncs("parser")
+	if len(funcs) == 0 {
+		r.undecided("unresolved:parser", "-", "UNRESOLVED: package parser not loaded")
+		return
+	}
+	inPkg := map[*ssa.Function]bool{}
+	for _, f := range funcs {
+		inPkg[f] = true
+	}
+	adj := map[*ssa.Function][]*ssa.Function{}
+	var addEdges func(from, fn *ssa.Function)
+	addEdges = func(from, fn *ssa.Function) {
+		for _, b := range fn.Blocks {
+			for _, ins := range b.Instrs {
+				ci, ok := ins.(ssa.CallInstruction)
+				if !ok {
+					continue
+				}
+				t := targetOf(ci)
+				for t != nil && t.Synthetic != "" {
+					t = boundTarget(t)
+				}
+				if t == nil {
+					continue
+				}
+				if t.Parent() != nil { // a function literal: its calls belong to the enclosing function
+					addEdges(from, t)
+					continue
+				}
+				if inPkg[t] {
+					adj[from] = append(adj[from], t)
+				}
+			}
+		}
+	}
+	for _, f := range funcs {
+		if f.Parent() == nil {
+			addEdges(f, f)
+		}
+	}
+	// Tarjan
+	index, low, on := map[*ssa.Function]int{}, map[*ssa.Function]int{}, map[*ssa.Function]bool{}
+	var stack []*ssa.Function
+	var sccs [][]*ssa.Function
+	idx := 0
+	var strong func(v *ssa.Function)
+	strong = func(v *ssa.Function) {
+		index[v], low[v] = idx, idx
+		idx++
+		stack = append(stack, v)
+		on[v] = true
+		for _, w := range adj[v] {
+			if _, seen := index[w]; !seen {
+				strong(w)
+				if low[w] < low[v] {
+					low[v] = low[w]
+				}
+			} else if on[w] && index[w] < low[v] {
+				low[v] = index[w]
+			}
+		}
+		if low[v] == index[v] {
+			var comp []*ssa.Function
+			for {
+				w := stack[len(stack)-1]
+				stack = stack[:len(stack)-1]
+				on[w] = false
+				comp = append(comp, w)
+				if w == v {
+					break
+				}
+			}
+			self := false
+			for _, w := range adj[v] {
+				if w == v {
+					self = true
+				}
+			}
+			if len(comp) > 1 || self {
+				sccs = append(sccs, comp)
+			}
+		}
+	}
+	sort.Slice(funcs, func(i, j int) bool { return ssaFuncName(funcs[i]) < ssaFuncName(funcs[j]) })
+	for _, f := range funcs {
+		if f.Parent() == nil {
+			if _, seen := index[f]; !seen {
+				strong(f)
+			}
+		}
+	}
+	// a depth guard: field = field + 1 and a comparison of that field, in the same function
+	hasGuard := func(fn *ssa.Function) bool {
+		for _, g := range withAnon(fn) {
+			counted := map[*types.Var]bool{}
+			for _, b := range g.Blocks {
+				for _, ins := range b.Instrs {
+					st, ok := ins.(*ssa.Store)
+					if !ok {
+						continue
+					}
+					_, f := fieldOfAddr(st.Addr)
+					if f == nil {
+						continue
+					}
+					if bo, ok := st.Val.(*ssa.BinOp); ok && bo.Op == token.ADD {
+						if a := loadAddr(bo.X); a != nil {
+							if _, f2 := fieldOfAddr(a); f2 == f {
+								counted[f] = true
+							}
+						}
+					}
+				}
+			}
+			for _, b := range g.Blocks {
+				for _, ins := range b.Instrs {
+					bo, ok := ins.(*ssa.BinOp)
+					if !ok {
+						continue
+					}
+					switch bo.Op {
+					case token.GTR, token.GEQ, token.LSS, token.LEQ:
+						for _, o := range []ssa.Value{bo.X, bo.Y} {
+							if a := loadAddr(o); a != nil {
+								if _, f := fieldOfAddr(a); f != nil && counted[f] {
+									return true
+								}
+							}
+						}
+					}
+				}
+			}
+		}
+		return false
+	}
+	for _, comp := range sccs {
+		var names []string
+		guarded := false
+		for _, f := range comp {
+			names = append(names, ssaFuncName(f))
+			if hasGuard(f) {
+				guarded = true
+			}
+		}
+		sort.Strings(names)
+		key := "cycle:" + names[0]
+		for _, n := range names {
+			if strings.HasSuffix(n, ".parseAssignmentExpression") {
+				key = "cycle:grammar" // the recursive-descent core: keyed by role, not by its (growing) member list
+			}
+		}
+		desc := strings.Join(names, ", ")
+		if len(desc) > 300 {
+			desc = desc[:300] + "..."
+		}
+		if why, ok := recParserReviewed[names[0]]; ok && len(names) == 1 {
+			r.ok("reviewed:"+key, c.Pos(comp[0].Pos()), why)
+			continue
+		}
+		r.check(guarded, key, c.Pos(comp[0].Pos()), "the cycle counts and limits its nesting", fmt.Sprintf("recursion cycle of %d parser function(s) without a depth guard {%s}: nesting in the input (a few hundred thousand `(`, `[`, `{` or regexp groups) drives the recursion until the Go stack is exhausted - a fatal error that kills the embedding process, not a parse error", len(names), desc))
+	}
+	r.note("cycles", len(sccs))
+}
+
+var recParserReviewed = map[string]string{
+	"parser.(*scope).hasLabel": "walks the chain of enclosing scopes outwards: one step per function nesting level the parser itself has already recursed through, never deeper than the parse that built the chain",
+}
+
+func init() {
+	register(&Rule{ID: "REC-data-depth", Props: []string{"C02"}, Min: 8,
+		Doc: "P: census of the recursion cycles of package otto that do not pass through a script call (strongly connected components of the static call structure after cutting (*object).call / construct and the object-protocol dispatchers, which the stack-depth guard covers). Each must be classified by what bounds its depth: a Go type (host-controlled), a constant, the depth of the compiled tree (see REC-parser-depth), or the nesting of a value a script built. The last kind is not covered by the stack-depth guard, so such a cycle must consult the runtime's stack limit itself (read runtime.stackLimit and compare); otherwise a script nests arrays a few million deep and the built-in exhausts the Go stack although a limit is configured",
+		Run: ruleRecDataDepth})
+}
+
+// what bounds each reviewed cycle (member name -> kind): type | const | ast | size | artefact | data
+var recKinds = map[string]string{
+	"toValue":                               "type",
+	"fieldIndexByName":                      "type",
+	"(*compiler).parseExpression":           "ast",
+	"(*compiler).parseStatement":            "ast",
+	"(*cloner).object":                      "data",
+	"arraySortQuickSort":                    "size",
+	"builtinJSONParseWalk":                  "const",
+	"builtinJSONReviveWalk":                 "const",
+	"builtinJSONStringifyWalk":              "data",
+	"(*runtime).convertCallParameter":       "type",
+	"(*runtime).toValue":                    "type",
+	"builtinStringFindAndReplaceString":     "artefact",
+	"(Value).string":                        "const",
+	"(Value).float64":                       "const",
+	"(*runtime).calculateComparison":        "const",
+	"getIdentifierReference":                "ast",
+	"(*runtime).cmplEvaluateNodeExpression": "ast",
+	"(*runtime).cmplEvaluateNodeStatement":  "ast",
+	"catchPanic":                            "artefact",
+	"(Value).export":                        "data",
+}
+
+var recKindText = map[string]string{
+	"type":     "bounded by the depth of a Go type (host-controlled)",
+	"const":    "bounded by a constant (one or a few steps; encoding/json's nesting limit for the JSON.parse walkers)",
+	"ast":      "bounded by the depth of the compiled tree, i.e. by the parser's nesting (REC-parser-depth)",
+	"size":     "depth O(n) only after O(n^2) comparisons on n elements: not reachable in practice",
+	"artefact": "not a recursion at run time (closures merged by the call structure)",
+}
+
+func ruleRecDataDepth(c *Ctx, r *R) {
+	cutNames := map[string]bool{"(*object).call": true, "(*object).construct": true, "(Value).call": true, "(Value).constructSafe": true}
+	funcs := c.AllSrcFuncs("")
+	inPkg := map[*ssa.Function]bool{}
+	for _, f := range funcs {
+		inPkg[f] = true
+	}
+	adj := map[*ssa.Function][]*ssa.Function{}
+	var addEdges func(from, fn *ssa.Function)
+	addEdges = func(from, fn *ssa.Function) {
+		for _, b := range fn.Blocks {
+			for _, ins := range b.Instrs {
+				switch x := ins.(type) {
+				case ssa.CallInstruction:
+					t := targetOf(x)
+					if t == nil {
+						continue
+					}
+					if t.Parent() != nil {
+						addEdges(from, t)
+						continue
+					}
+					if inPkg[t] {
+						adj[from] = append(adj[from], t)
+					}
+				case *ssa.MakeClosure:
+					if lit, ok := x.Fn.(*ssa.Function); ok && lit.Parent() != nil {
+						addEdges(from, lit) // a literal handed to a callee (enumerate callbacks): its calls happen under from
+					}
+				}
+			}
+		}
+	}
+	for _, f := range funcs {
+		if f.Parent() != nil || cutNames[ssaFuncName(f)] || isSlotDispatcher(f) {
+			continue
+		}
+		addEdges(f, f)
+	}
+	index, low, on := map[*ssa.Function]int{}, map[*ssa.Function]int{}, map[*ssa.Function]bool{}
+	var stack []*ssa.Function
+	var sccs [][]*ssa.Function
+	idx := 0
+	var strong func(v *ssa.Function)
+	strong = func(v *ssa.Function) {
+		index[v], low[v] = idx, idx
+		idx++
+		stack = append(stack, v)
+		on[v] = true
+		for _, w := range adj[v] {
+			if _, seen := index[w]; !seen {
+				strong(w)
+				if low[w] < low[v] {
+					low[v] = low[w]
+				}
+			} else if on[w] && index[w] < low[v] {
+				low[v] = index[w]
+			}
+		}
+		if low[v] == index[v] {
+			var comp []*ssa.Function
+			for {
+				w := stack[len(stack)-1]
+				stack = stack[:len(stack)-1]
+				on[w] = false
+				comp = append(comp, w)
+				if w == v {
+					break
+				}
+			}
+			self := false
+			for _, w := range adj[v] {
+				if w == v {
+					self = true
+				}
+			}
+			if len(comp) > 1 || self {
+				sccs = append(sccs, comp)
+			}
+		}
+	}
+	sort.Slice(funcs, func(i, j int) bool { return ssaFuncName(funcs[i]) < ssaFuncName(funcs[j]) })
+	for _, f := range funcs {
+		if f.Parent() == nil {
+			if _, seen := index[f]; !seen {
+				strong(f)
+			}
+		}
+	}
+	readsLimit := func(fn *ssa.Function) bool {
+		for _, g := range withAnon(fn) {
+			for _, b := range g.Blocks {
+				for _, ins := range b.Instrs {
+					if ld, ok := ins.(*ssa.UnOp); ok && ld.Op == token.MUL && isFieldAddr(ld.X, "runtime", "stackLimit") {
+						for _, ref := range *ld.Referrers() {
+							if bo, ok := ref.(*ssa.BinOp); ok {
+								switch bo.Op {
+								case token.GTR, token.GEQ, token.LSS, token.LEQ:
+									return true
+								}
+							}
+						}
+					}
+				}
+			}
+		}
+		return false
+	}
+	for _, comp := range sccs {
+		var names []string
+		for _, f := range comp {
+			names = append(names, ssaFuncName(f))
+		}
+		sort.Strings(names)
+		kind, member := "", ""
+		for _, n := range names {
+			if k, ok := recKinds[n]; ok && (kind == "" || k == "data") {
+				kind, member = k, n
+			}
+		}
+		key := "cycle:" + names[0]
+		if member != "" {
+			key = "cycle:" + member
+		}
+		site := c.Pos(comp[0].Pos())
+		desc := strings.Join(names, ", ")
+		if len(desc) > 300 {
+			desc = desc[:300] + "..."
+		}
+		switch kind {
+		case "":
+			r.bad(key, site, "recursion cycle that does not pass through a script call and has no reviewed bound: {"+desc+"}")
+		case "data":
+			guarded := false
+			for _, f := range comp {
+				if readsLimit(f) {
+					guarded = true
+				}
+			}
+			r.check(guarded, key, site, "driven by the nesting of script-built values; consults the runtime's stack limit", "this cycle {"+desc+"} recurses once per nesting level of a value the script built and never passes through a script call, so the stack-depth guard does not see it; it does not consult runtime.stackLimit either: values nested a few million levels deep exhaust the Go stack (fatal) although a limit is configured")
+		default:
+			r.ok(key, site, recKindText[kind]+" {"+desc+"}")
+		}
+	}
+	r.note("cycles", len(sccs))
 }
